@@ -79,3 +79,146 @@ func vhC01HeadFraming() {
 		vAssert("framing-as-rfc9112", !o.ok || o.cl == want)
 	}
 }
+
+// ---- chunked bodies through the real serve loop ------------------------
+
+// c01RefChunked is an independent reading of RFC 9112 §7.1 from offset i:
+// chunk = 1*HEXDIG *(SP/HTAB) [";" *(byte except CR LF)] CRLF data CRLF; the
+// last chunk has size 0 and is followed by a trailer section (field lines
+// ending in CRLF or bare LF) and an empty line. Returns the decoded body and
+// the offset just past the message.
+func c01RefChunked(b []byte, i int) (body []byte, end int, ok bool) {
+	for {
+		sz, nd := 0, 0
+		for i < len(b) && refHexVal(b[i]) >= 0 {
+			sz = sz*16 + refHexVal(b[i])
+			nd++
+			i++
+			if nd > 15 {
+				return nil, 0, false
+			}
+		}
+		if nd == 0 {
+			return nil, 0, false
+		}
+		for i < len(b) && (b[i] == ' ' || b[i] == '\t') {
+			i++
+		}
+		if i < len(b) && b[i] == ';' {
+			for i < len(b) && b[i] != '\r' && b[i] != '\n' {
+				i++
+			}
+		}
+		if !(i+1 < len(b) && b[i] == '\r' && b[i+1] == '\n') {
+			return nil, 0, false
+		}
+		i += 2
+		if sz == 0 {
+			break
+		}
+		if i+sz+2 > len(b) || b[i+sz] != '\r' || b[i+sz+1] != '\n' {
+			return nil, 0, false
+		}
+		body = append(body, b[i:i+sz]...)
+		i += sz + 2
+	}
+	// trailer section
+	for {
+		j := i
+		for j < len(b) && b[j] != '\n' {
+			j++
+		}
+		if j >= len(b) {
+			return nil, 0, false
+		}
+		line := b[i:j]
+		if len(line) > 0 && line[len(line)-1] == '\r' {
+			line = line[:len(line)-1]
+		}
+		i = j + 1
+		if len(line) == 0 {
+			return body, i, true
+		}
+		colon := -1
+		for k, c := range line {
+			if c == ':' {
+				colon = k
+				break
+			}
+		}
+		if colon <= 0 || line[0] == ' ' || line[0] == '\t' {
+			return nil, 0, false
+		}
+		for _, c := range line[:colon] {
+			if !c05IsTChar(c) {
+				return nil, 0, false
+			}
+		}
+		for _, c := range line {
+			if c == '\r' || c == 0 {
+				return nil, 0, false
+			}
+		}
+	}
+}
+
+// vhC01ChunkedBody: a chunked POST with a hole of arbitrary bytes in the
+// chunk-size line, after the chunk data, or after the last-chunk size,
+// followed by a second request, through the real serve loop. Whatever the
+// server dispatches must be what the reference framing yields; a body the
+// reference calls malformed is never followed by another request.
+func vhC01ChunkedBody() {
+	const head = "POST /first HTTP/1.1\r\nHost: a\r\nTransfer-Encoding: chunked\r\n\r\n"
+	const second = "GET /second HTTP/1.1\r\nHost: a\r\nConnection: close\r\n\r\n"
+	h1, h2, h3 := []byte("3\r\n"), []byte("\r\n"), []byte("\r\n")
+	hl := vParam("holeLen", 3)
+	switch vChoose("hole", 3) {
+	case 0:
+		h1 = c05Sym("sizeLine", hl)
+	case 1:
+		h2 = vBytes("afterData", 2)
+	case 2:
+		h3 = append(c05Sym("afterLastSize", hl), "\r\n"...)
+	}
+	msg := head + string(h1) + "abc" + string(h2) + "0" + string(h3) + "\r\n"
+	stream := []byte(msg + second)
+	c := &vsSegConn{}
+	if vBool("oneSegment") {
+		c.segs = [][]byte{stream}
+	} else {
+		c.segs = [][]byte{[]byte(msg), []byte(second)}
+	}
+	s := &Server{NoDefaultDate: true, NoDefaultServerHeader: true, MaxRequestBodySize: 32}
+	s.ReduceMemoryUsage = vBool("reduceMemory")
+	var uris, bodies []string
+	s.Handler = func(ctx *RequestCtx) {
+		uris = append(uris, string(ctx.Path()))
+		bodies = append(bodies, string(ctx.PostBody()))
+		ctx.SetBodyString("ok")
+	}
+	s.ServeConn(c)
+	refBody, refEnd, refOK := c01RefChunked(stream, len(head))
+	vNote(msg)
+	if len(uris) > 0 {
+		vAssert("dispatched-request-is-the-first-message", uris[0] == "/first")
+		vAssert("accepted-body-is-well-formed-per-rfc9112", refOK)
+		if refOK {
+			vAssert("body-as-framed-by-rfc9112", bodies[0] == string(refBody))
+		}
+	}
+	if len(uris) > 1 {
+		// the boundary is where the reference puts it, up to empty lines in
+		// front of the next request line (RFC 9112 §2.2)
+		atBoundary := refOK && refEnd <= len(msg)
+		for k := refEnd; atBoundary && k < len(msg); k++ {
+			if stream[k] != '\r' && stream[k] != '\n' {
+				atBoundary = false
+			}
+		}
+		vAssert("next-request-starts-at-the-message-boundary", atBoundary && uris[1] == "/second" && len(uris) == 2)
+	}
+	if !refOK {
+		vAssert("malformed-chunked-body-ends-the-connection", len(uris) == 0)
+	}
+	vAssert("connection-closed-at-end", c.closed == 1)
+}
